@@ -372,11 +372,14 @@ class TaskManager(SingletonLogging):
     def process_task(self, task):
         if _debug: TaskManager._debug("process_task %r", task)
 
+        # a recurring task is rescheduled before it is processed, it might
+        # suspend itself or change its interval, and it keeps its schedule
+        # when processing raises an exception
+        if isinstance(task, RecurringTask):
+            task.install_task()
+
         # process the task
         task.process_task()
 
-        # see if it should be rescheduled
-        if isinstance(task, RecurringTask):
-            task.install_task()
-        elif isinstance(task, OneShotDeleteTask):
+        if isinstance(task, OneShotDeleteTask):
             del task
